@@ -205,7 +205,7 @@ Definition create (x : wctx) (r : request) (shuffle : list cand -> list cand) (t
 Definition wallet_side (e : event) : bool :=
   match e with
   | Seen _ | Lease _ _ _ | Release _ _ | Tick _ | Sweep => true
-  | Confirm _ _ _ _ | Disconnect _ | Abandon _ => false
+  | _ => false                       (* confirmations, reorganisations, removals, re-deliveries *)
   end.
 
 (** A freshly created transaction: not recorded yet, and none of its outputs
